@@ -329,8 +329,8 @@ type mutator struct {
 	f       func(c *cand, arg int64)
 }
 
-func always(variant, int32) bool { return true }
-func segOn(v variant, h int32) bool { return active(v.segH, h) }
+func always(variant, int32) bool     { return true }
+func segOn(v variant, h int32) bool  { return active(v.segH, h) }
 func segOff(v variant, h int32) bool { return !active(v.segH, h) }
 func csvOn(v variant, h int32) bool  { return active(v.csvH, h) }
 
